@@ -33,7 +33,12 @@ type compiler struct {
 	program *ast.Program
 	curStmt ast.Statement
 	inCheck bool
+	// levels of Interface() unwrapping the sink is in (see write)
+	unwrapping int
 }
+
+// maxUnwrap bounds how many wrappers inside wrappers the sink opens
+const maxUnwrap = 16
 
 func (c *compiler) compile() (string, error) {
 	bb := &strings.Builder{}
@@ -91,7 +96,13 @@ func (c *compiler) write(bb *strings.Builder, i interface{}) {
 			c.write(bb, *t)
 		}
 	case interfaceable:
-		c.write(bb, t.Interface())
+		// Interface() may hand back another wrapper - even its own receiver: the
+		// unwrapping stops after a few levels instead of exhausting the stack
+		if c.unwrapping < maxUnwrap {
+			c.unwrapping++
+			c.write(bb, t.Interface())
+			c.unwrapping--
+		}
 	case string, ast.Printable, bool:
 		bb.Write(unsafeGetBytes(template.HTMLEscaper(t)))
 	case template.HTML:
